@@ -120,6 +120,9 @@ class NoiselessDetector(Detector):
         else:
             power = wavefront
 
+        if not hasattr(power, 'grid'):
+            power = Field(np.asarray(power), self.input_grid)
+
         if self.subsamping > 1:
             power = subsample_field(power, subsampling=self.subsamping, new_grid=self.detector_grid, statistic='sum')
 
@@ -228,6 +231,9 @@ class NoisyDetector(Detector):
             power = wavefront.power
         else:
             power = wavefront
+
+        if not hasattr(power, 'grid'):
+            power = Field(np.asarray(power), self.input_grid)
 
         self.accumulated_charge += subsample_field(power, subsampling=self.subsamping, new_grid=self.detector_grid, statistic='sum') * dt * weight
 
